@@ -13,6 +13,7 @@ import (
 
 	"github.com/oxia-db/oxia/zzverif/vsched"
 
+	"verif/lib/fsnap"
 	"verif/lib/oxc"
 	"verif/lib/oxh"
 	"verif/lib/pipeh"
@@ -54,6 +55,8 @@ func scenarios(tier string) []sched.Scenario {
 	// fine-grained schedules of the leader's own apply path (last: they inherit the budget the cluster
 	// scenarios did not use): two or three writers colliding on one key on a real RF=3 leader; the state
 	// the leader applied live must equal the fold of its log
+	// a follower restored from a snapshot in a namespace with notifications disabled (real directory)
+	out = append(out, fsnap.NotificationsOffScenarios(tier)...)
 	return append(out, pipeh.ScenariosFor(tier, map[string]bool{"leader-state-not-fold-of-log": true, "apply-out-of-order": true,
 		"committed-entry-not-applied": true, "harness-setup": true})...)
 }
